@@ -102,7 +102,7 @@ def run(chk):
     chk.cov["eintr_cases"] = len(eintr)
     races = [ipc.prefilter(c) for c in race_cases(rng, thorough)]
     chk.cov["race_schedules"] = len(races)
-    nr = 1200 if thorough else 70
+    nr = 800 if thorough else 70
     rnd = [ipc.prefilter(ipc.gen_history(rng, chk, rng.choice([8, 25, 60]), sem_w=0.25, shm_w=1.0)) for _ in range(nr)]
 
     R.run(corpus + BASIC + [ipc.prefilter(c) for c in LOCK_LOST], batch=1)
